@@ -759,4 +759,43 @@ theorem defineEnum_nss (st : NsState) (nsName : List Char) (name : Seg) (values 
   simp only
   cases (defineNs st (splitDots nsName)).findEnum (splitDots nsName) name <;> rfl
 
+
+theorem foldl_addNew_id {α} [DecidableEq α] (xs : List α) : ∀ (l : List α), (∀ a ∈ xs, a ∈ l) → xs.foldl addNew l = l := by
+  induction xs with
+  | nil => intro l _; rfl
+  | cons x xs ih =>
+    intro l h
+    have hx : x ∈ l := h x (by simp)
+    simp only [List.foldl_cons, addNew, hx, if_true]
+    exact ih l (fun a ha => h a (by simp [ha]))
+
+theorem defineNs_idem (st : NsState) (path : List Seg) : defineNs (defineNs st path) path = defineNs st path := by
+  unfold defineNs
+  simp only
+  congr 1
+  apply foldl_addNew_id
+  intro a ha
+  rw [mem_foldl_addNew]
+  exact Or.inr ha
+
+/-! ### 6. columns -/
+
+theorem finishCol_plain_fields (s : ChainSt) (out : ColOut) (h : finishCol s .plain = .ok out) :
+    ∃ t, s.ty = .value t ∧ out.loops = s.loops ∧ out.warns = s.warns ∧ out.iterDepths = s.iterDepths ∧ out.valTy = t := by
+  unfold finishCol at h
+  cases hty : s.ty with
+  | coll a b => simp [hty] at h
+  | value t =>
+    simp only [hty, Except.ok.injEq] at h
+    subst h
+    exact ⟨t, rfl, rfl, rfl, rfl, rfl⟩
+
+theorem arithNames_sub {n : String} (h : n ∈ arithNames) : n ∈ arithAll := by
+  simp only [arithNames, List.mem_cons, List.mem_nil_iff, or_false] at h
+  rcases h with rfl | rfl | rfl <;> decide
+
+theorem promote_int {n : String} (h : n ∈ arithNames) : promote n "int" = n := by
+  simp only [arithNames, List.mem_cons, List.mem_nil_iff, or_false] at h
+  rcases h with rfl | rfl | rfl <;> decide
+
 end FaxVerif.C10
